@@ -57,6 +57,10 @@ def impl_run(job):
         # the initial condition is edited after the interface (if any) was built: the call must report the current one
         m.set_species({s: float(x) for s, x in zip(job["species"], job["x0"])})
     vol = {"off": False, "flag": True, "number": 1.5}.get(o["volume"])
+    if o["volume"] == "baseobject":
+        from bioscrape.types import Volume
+        vol = Volume()
+        vol.py_set_volume(1.0)
     if o["volume"] in ("object", "dividing"):
         vol = StochasticTimeThresholdVolume(1.25, 2.0, 0.0)
         vol.py_set_volume(1.0)
@@ -102,7 +106,7 @@ def impl_run(job):
     try:
         ic_after = dict(m.get_species_dictionary())
         out["ic_changed"] = {k: (float(ic_before[k]), float(ic_after[k])) for k in ic_before if ic_before[k] != ic_after[k]}
-        if o["volume"] not in ("object", "dividing"):
+        if o["volume"] not in ("object", "dividing", "baseobject"):
             r2 = py_simulate_model(tp, Model=m, stochastic=True, return_dataframe=False).py_get_result()
             out["second_first"] = [float(x) for x in r2[0, :]]
     except BaseException as e:  # noqa
